@@ -746,34 +746,37 @@ func (fr *Frame) loopTrackedKeys(li *loopInfo) []KeyInfo {
 		tracked[t] = true
 	}
 	hit := map[string]bool{}
-	for _, b := range li.blocks {
-		for _, in := range b.Instrs {
-			var c *ssa.CallCommon
-			switch x := in.(type) {
-			case *ssa.Call:
-				c = x.Common()
-			case *ssa.Defer:
-				c = x.Common()
-			}
-			if c == nil {
-				continue
-			}
-			if c.IsInvoke() {
-				if tracked[c.Method.Name()] {
-					hit[c.Method.Name()] = true
+	var scan func(blocks []*ssa.BasicBlock, depth int)
+	scan = func(blocks []*ssa.BasicBlock, depth int) {
+		for _, b := range blocks {
+			for _, in := range b.Instrs {
+				var c *ssa.CallCommon
+				switch x := in.(type) {
+				case *ssa.Call:
+					c = x.Common()
+				case *ssa.Defer:
+					c = x.Common()
 				}
-			} else if f, ok := c.Value.(*ssa.Function); ok {
-				if tracked[f.Name()] {
-					hit[f.Name()] = true
+				if c == nil {
+					continue
 				}
-				if v.eng.isNewHelper(f) {
-					for t := range tracked {
-						hit[t] = true // a helper executed as part of this function may make any of the calls
+				if c.IsInvoke() {
+					if tracked[c.Method.Name()] {
+						hit[c.Method.Name()] = true
+					}
+				} else if f, ok := c.Value.(*ssa.Function); ok {
+					if tracked[f.Name()] {
+						hit[f.Name()] = true
+					}
+					if v.eng.isNewHelper(f) && depth < 4 {
+						// a helper executed as part of this function: the tracked calls it makes count too
+						scan(f.Blocks, depth+1)
 					}
 				}
 			}
 		}
 	}
+	scan(li.blocks, 0)
 	var out []KeyInfo
 	var keys []string
 	for k := range v.reg.sort {
